@@ -45,7 +45,25 @@ def configured(mode, ents):
 def gen_case(rng, g):
     mode = rng.choice(['robsd', 'robsd-cross', 'robsd-ports', 'robsd-regress', 'robsd-regress', 'robsd-regress', 'canvas', 'canvas'])
     ents, st = g.entries(mode, popt=rng.choice([0.1, 0.3]))
+    if mode == 'canvas' and rng.random() < 0.35:
+        # long step lists: the step vector grows at 16, 32, 64 entries (the synthetic "end" is added to it after the parse)
+        want = rng.choice([14, 15, 16, 17, 18, 30, 31, 32, 33, 34, 63, 64, 65])
+        have = [i for i, e in enumerate(ents) if e[0] == b'step']
+        at = (have[-1] + 1) if have else len(ents)
+        for _ in range(max(0, want - len(have))):
+            ents.insert(at, [b'step'] + g.step_entry(st))
     case = {'mode': mode, 'kind': 'valid', 'execdir': b'@R@/exec'.hex()}
+    if mode == 'canvas' and rng.random() < 0.3:
+        # name families (one name a prefix of another, any order) with literal commands that print the position of the
+        # step in the configuration: the runner must execute the step that carries exactly the listed name
+        fam = rng.choice([[b'build', b'build-all', b'b', b'build-all-x'], [b'lint', b'li', b'lint2', b'l'], [b'en', b'end-x', b'e', b'x']])
+        k = 0
+        for e in ents:
+            if e[0] == b'step':
+                k += 1
+                par = [b'parallel'] if b'parallel' in e[2:] else []
+                e[1:] = [conf_gen.q(rng.choice(fam))] + par + [b'command', b'{', conf_gen.q(b'echo'), conf_gen.q(b'STEP%d' % k), b'}']
+        case['literal_cmds'] = True
     if rng.random() < 0.12:
         case['kind'], text = g.corrupt(mode, ents, st)
     else:
@@ -203,6 +221,19 @@ def evaluate(ctx, cases, res, world=None, offsets_all=False):
             if b'step script not found' in err:
                 res.oracle_failures.append({'case': case, 'signature': 'listed-step-not-resolvable',
                                             'what': 'robsd-step -L lists %r but robsd-exec does not find it' % name})
+            # independent of the model: the stub scripts print their arguments (the last one is the step name), the
+            # literal canvas commands print the position of their step
+            want = None
+            if out.startswith(b'stub ') and rc == 0 and b'\n' not in name:
+                want = name
+                got = out[:-1].split(b' ', 2)[2] if out.count(b' ') >= 2 else b''
+            elif case.get('literal_cmds') and 'cfgd' in case and rc == 0 and out.startswith(b'STEP'):
+                first = [i + 1 for i, (nm, _) in enumerate(case['cfgd']) if bytes.fromhex(nm) == name]
+                if first:
+                    want, got = b'STEP%d' % first[0], out.strip()
+            if want is not None and got != want:
+                res.oracle_failures.append({'case': case, 'signature': 'runner-executes-another-step',
+                                            'what': 'robsd-exec %r ran the step identified by %r, not the first step with exactly the listed name (%r)' % (name, got, want)})
             if rc < 0:
                 res.oracle_failures.append({'case': case, 'signature': 'runner-died', 'what': 'robsd-exec %r terminated with status %d' % (name, rc)})
             argv = [common.unhex(x) for x in a[2:]]
